@@ -109,25 +109,91 @@ func (e *Engine) checkObligation(st *State, c *Term, label string, in ssa.Instru
 		return true
 	}
 	q := append(append(make([]*Term, 0, len(st.pc)+1), st.pc...), Not(c))
-	r := e.strong.Check(q)
+	r, sv := e.strongCheck(q)
 	switch r {
 	case "unsat":
 		as.Unsat++
-		e.strong.Pop()
+		sv.Pop()
 		st.known[c.id] = true // implied by the path condition: nothing to add
 		return true
 	case "sat":
 		as.Sat++
 		o := &Outcome{Kind: "assert", Msg: label, Site: e.site(st), Trace: st.trace}
-		o.Nondet = e.modelOf(e.strong, st.nd)
-		e.strong.Pop()
+		o.Nondet = e.modelOf(sv, st.nd)
+		sv.Pop()
 		e.outcomes = append(e.outcomes, o)
 	default:
 		as.Unknown++
-		e.strong.Pop()
 		e.outcomes = append(e.outcomes, &Outcome{Kind: "unknown", Msg: label + ": solver answered " + r, Site: e.site(st)})
 	}
 	return false
+}
+
+// strongCheck discharges an obligation query with the obligation solver and, when that one answers unknown (timeout),
+// with the other installed solvers in turn (a portfolio: every solver decides the same regenerated query; a verdict is
+// only ever "sat"/"unsat" from a solver that printed no error line). On sat/unsat the deciding solver is returned with the
+// query frame still pushed (the caller reads the model and pops); on unknown nothing is left pushed.
+func (e *Engine) strongCheck(q []*Term) (string, *Solver) {
+	staged := len(e.altNames) > 0 && (e.strong.Name == "z3" || e.strong.Name == "z3-new") && e.strongT > 30000
+	if staged && !e.stagedSet {
+		// first pass of the obligation solver with a third of the budget; the full budget is used in the last pass
+		e.strong.send(fmt.Sprintf("(set-option :timeout %d)", e.strongT/3))
+		e.stagedSet = true
+	}
+	r := e.strong.Check(q)
+	if r == "sat" || r == "unsat" {
+		return r, e.strong
+	}
+	e.strong.Pop()
+	if r == "error" {
+		return r, nil
+	}
+	for _, name := range e.altNames {
+		s := e.alts[name]
+		if s == nil {
+			b, a := solverCmd(name, e.strongT)
+			s = NewSolver(b, a...)
+			s.Name = name
+			s.AbsHeavyDiv = absHeavyDiv
+			if name == "cvc5" {
+				s.send("(set-logic ALL)")
+			}
+			if e.alts == nil {
+				e.alts = map[string]*Solver{}
+			}
+			e.alts[name] = s
+		}
+		r2 := s.Check(q)
+		if r2 == "sat" || r2 == "unsat" {
+			e.strong.NUnknown-- // decided after all
+			e.fallbackHits[name]++
+			return r2, s
+		}
+		if r2 == "error" {
+			// the fallback solver rejected part of the encoding: its answer is discarded and the process restarted
+			e.fallbackErr[name]++
+			s.Close()
+			delete(e.alts, name)
+			continue
+		}
+		s.Pop()
+	}
+	if staged {
+		e.strong.send(fmt.Sprintf("(set-option :timeout %d)", e.strongT))
+		r = e.strong.Check(q)
+		e.strong.Queries--
+		if r == "sat" || r == "unsat" {
+			e.strong.NUnknown--
+			e.strong.send(fmt.Sprintf("(set-option :timeout %d)", e.strongT/3))
+			return r, e.strong
+		}
+		e.strong.Pop()
+		if r != "error" {
+			e.strong.NUnknown--
+		}
+		e.strong.send(fmt.Sprintf("(set-option :timeout %d)", e.strongT/3))
+	}
+	return r, nil
 }
 
 func (e *Engine) modelOf(s *Solver, nd []ndVar) []NdRec {
